@@ -26,7 +26,7 @@ LONG = ["9223372036854775807", "9223372036854775808", "-9223372036854775808", "-
         "3.14159265358979323846264338327950288", "0.1", "100000000000000000000", "1" * 40, "0" * 30 + "1", "1d5", "1f", "1L", "True",
         "None", "(5)", "[5]", "5%", "$5", "5m", "1/2", "05123370660000", "42-037-20012"]
 SECTIONS = [("V", "~Version"), ("W", "~Well"), ("P", "~Parameter"), ("X", "~Tool"), ("C", "~Curves")]
-MNEMS = ["X", "API", "UWI", "api", "Uwi"]
+MNEMS = ["X", "API", "UWI", "api", "Uwi", "aPi"]
 
 
 def classify_obs(v):
@@ -135,8 +135,10 @@ def run(ctx):
         for i in range(0, len(ok), step):
             chunk = ok[i:i + step]
             text = build(sec, title, mn, chunk)
+            # the case option must not matter: API / UWI are recognised in any case under every mnemonic_case
+            mcase = ["upper", "preserve", "lower"][(i // step + len(mn)) % 3]
             try:
-                las = lasio.read(text)
+                las = lasio.read(text, mnemonic_case=mcase)
             except Exception:
                 # a value that makes read() fail is an observation, not a harness problem: find it one by one
                 for s1 in chunk:
@@ -150,7 +152,7 @@ def run(ctx):
                 chunk = [s1 for s1 in chunk if not _raises(build(sec, title, mn, [s1]))]
                 if not chunk:
                     continue
-                las = lasio.read(build(sec, title, mn, chunk))
+                las = lasio.read(build(sec, title, mn, chunk), mnemonic_case=mcase)
             ctx.evaluations += 1
             section = {"V": las.version, "W": las.well, "P": las.params, "C": las.curves}.get(sec)
             if section is None:
